@@ -39,7 +39,7 @@ Timeouts(vs) == [t : {"timeout"}, from : Others \cup {0}, view : vs, hv : {NoVot
 (* senders of certificates: the leader of the relevant view and one other validator *)
 Senders(v) == {Leader(v), CHOOSE x \in Others : x # Leader(v)} \ {Self}
 NewViews(vs) == UNION {[t : {"newview"}, from : Senders(JView(j)), j : {j}, inv : Inval \cup {"weak"}] : j \in Justs(vs)}
-Proposals(vs) == UNION {[t : {"proposal"}, from : Senders(JView(j)), j : {j}, p : {"none", "bad"} \cup Pays, inv : Inval] : j \in Justs(vs)}
+Proposals(vs) == UNION {[t : {"proposal"}, from : Senders(JView(j)), j : {j}, p : {"none", "bad", "huge"} \cup Pays, inv : Inval] : j \in Justs(vs)}
 
 WithValid(m) == [f \in (DOMAIN m) \cup {"valid"} |-> IF f = "valid" THEN m.inv = "none" ELSE m[f]]
 
@@ -69,7 +69,10 @@ RecvRejected ==
             \cup pick(rej({x \in Commits(vs) : x.inv = "none" /\ x.from # 0}))
             \cup pick(rej({x \in Timeouts(vs) : x.inv = "none" /\ x.from # 0})) \cup pick(rej({x \in Timeouts(vs) : x.inv = "sig"}))
             \cup pick(rej({x \in NewViews(vs) : x.inv = "weak"})) \cup pick(rej({x \in NewViews(vs) : x.inv = "none"}))
-            \cup pick(rej({x \in Proposals(vs) : x.inv = "none" /\ x.p = "bad"})) \cup pick(rej({x \in Proposals(vs) : x.inv = "none" /\ x.p # "bad"}))
+            \cup pick(rej({x \in Proposals(vs) : x.inv = "none" /\ x.p = "bad"})) \cup pick(rej({x \in Proposals(vs) : x.inv = "none" /\ x.p \notin {"bad", "huge"}}))
+            \cup (LET good == CHOOSE q \in Pays : TRUE     \* refused ONLY because of the payload: the same proposal with a good payload is accepted
+                      big == {x \in Proposals(vs) : x.inv = "none" /\ x.p \in {"huge", "bad"} /\ Accepted([x EXCEPT !.p = good])}
+                  IN IF big = {} THEN {} ELSE {RandomElement(big)})
             \cup pick(rej({x \in Proposals(vs) : x.inv = "sig"}))
     IN cands # {} /\ Recv(RandomElement(cands))
 
@@ -88,17 +91,20 @@ FoldSteps(st, ms) == IF ms = <<>> THEN st ELSE FoldSteps(StepOne(st, Head(ms)), 
 TakeBurst(ms) ==
     LET st == FoldSteps([rs |-> rs, store |-> store, dur |-> dur, hist |-> hist], ms)
     IN rs' = st.rs /\ store' = st.store /\ dur' = st.dur /\ hist' = st.hist
-BurstViews == {w \in 0..MaxV : w = rs.view \/ w = rs.view + 1}
+(* The burst's view and reports are a function of the state (TLC re-evaluates RandomElement at every use inside a LET, which would   *)
+(* give every message of the burst a different view): they vary with the length of the history.                                     *)
+Pick(S, k) == LET q == SetToSeq(S) IN q[(k % Len(q)) + 1]
+BurstView == IF Len(hist) % 2 = 1 /\ rs.view + 1 <= MaxV THEN rs.view + 1 ELSE rs.view
 TimeoutBurst ==
-    /\ BurstViews # {}
-    /\ LET w == RandomElement(BurstViews)
-           lower == {x \in 0..MaxV : x < w}
-           hv == RandomElement({NoVote} \cup Votes(lower))
-           hq == RandomElement({NoVote} \cup NestedQCs(lower))
+    /\ BurstView <= MaxV
+    /\ LET w == BurstView
+           lower == {x \in 0..MaxV : x < w /\ x + 2 >= w}
+           hv == Pick({NoVote} \cup Votes(lower), Len(hist) \div 2)
+           hq == Pick({NoVote} \cup NestedQCs(lower), Len(hist) \div 3)
        IN TakeBurst([i \in 1..Len(OthersSeq) |-> [t |-> "timeout", from |-> OthersSeq[i], view |-> w, hv |-> hv, hq |-> hq, inv |-> "none"]])
 CommitBurst ==
-    /\ BurstViews # {}
-    /\ LET v == RandomElement(Votes(BurstViews))
+    /\ BurstView <= MaxV
+    /\ LET v == Pick(Votes({BurstView}), Len(hist) \div 2)
        IN TakeBurst([i \in 1..Len(OthersSeq) |-> [t |-> "commit", from |-> OthersSeq[i], vote |-> v, inv |-> "none"]])
 
 Timer == Take(OnTimer(Self, rs, store), [a |-> "timer"])
